@@ -39,7 +39,7 @@ FLAVOURS = {"quick": ["plain"], "thorough": ["plain", "asan"]}
 def fstep(s):
     k = s[0]
     if k == "tR": return "tR %d %d %d %d%s" % (s[1], s[2][0], s[2][1], len(s[2][2]), "".join(" %d" % c for c in s[2][2]))
-    if k in ("tI", "wI"): return "%s %d %d M %d%s %d" % (k, s[1], s[2], len(s[3]), "".join(" %d %d" % e for e in s[3]), s[4])
+    if k in ("tI", "wI", "tT"): return "%s %d %d M %d%s %d" % (k, s[1], s[2], len(s[3]), "".join(" %d %d" % e for e in s[3]), s[4])
     return " ".join([k] + [str(x) for x in s[1:]])
 def fmt(steps): return "c11 %d %s" % (len(steps), " ".join(fstep(s) for s in steps))
 
@@ -54,7 +54,7 @@ def parse(line):
             h, s, p, ar = int(t[i]), int(t[i + 1]), int(t[i + 2]), int(t[i + 3]); i += 4
             cs = tuple(int(x) for x in t[i:i + ar]); i += ar
             steps.append(("tR", h, (s, p, cs)))
-        elif k in ("tI", "wI"):
+        elif k in ("tI", "wI", "tT"):
             h, s = int(t[i]), int(t[i + 1]); assert t[i + 2] == "M"; m = int(t[i + 3]); i += 4
             mp = [(int(t[i + 2 * j]), int(t[i + 2 * j + 1])) for j in range(m)]; i += 2 * m
             steps.append((k, h, s, mp, int(t[i]))); i += 1
@@ -180,6 +180,11 @@ class Sim:
             if not free(st[1]) or not live(st[2]): return False
             m = dict(st[3]); h = lambda x: m.get(x, x + st[4]); v = P[st[2]]
             P[st[1]] = TV([(f, h(p), tuple(h(c) for c in cs)) for (f, p, cs) in v.rules], [h(q) for q in v.finals], v.known)
+            self.log.append(k)
+        elif k == "tT":
+            if not free(st[1]) or not live(st[2]): return False
+            m = dict(st[3]); g = lambda x: m.get(x, x + st[4]); v = P[st[2]]
+            P[st[1]] = TV([(g(f), p, cs) for (f, p, cs) in v.rules], list(v.finals), v.known)
             self.log.append(k)
         elif k == "wI":
             if not free(st[1]) or not live(st[2]): return False
@@ -474,8 +479,29 @@ def large_trim(rng):
     if rng.random() < 0.4: steps.append(("tQ", 0))
     return fmt(steps)
 
+def symbol_merge(rng):
+    """TranslateSymbols with a symbol map that MERGES symbols used under one parent (and other maps), on an automaton of which copies are alive:
+    a read-only operation must leave its operand and every copy of it untouched, whatever it shares with them internally"""
+    st = [0, 1, 2, 3]
+    steps = [("tN", 0)]
+    for _ in range(rng.randint(3, 7)):
+        steps.append(("tR", 0, (rng.choice([0, 1, 2, 3]), rng.choice(st), tuple(rng.choice(st) for _ in range(rng.choice([0, 1, 2, 2]))))))
+    steps.append(("tF", 0, rng.choice(st)))
+    steps.append(("tC", 1, 0))
+    if rng.random() < 0.5: steps += [("tN", 2), ("tA", 2, 0)]
+    kind = rng.random()
+    if kind < 0.6: m = [(2, 3)] if rng.random() < 0.5 else [(3, 2), (1, 0)]       # merging
+    elif kind < 0.8: m = [(0, 1), (1, 0)]                                          # swap
+    else: m = []
+    steps.append(("tT", 3, rng.choice([0, 1]), m, rng.choice([0, 0, 10])))
+    if rng.random() < 0.5: steps.append(("tT", 4, 0, [(q, 0) for q in range(4)], 0))
+    if rng.random() < 0.5: steps.append(("tR", 1, (rng.choice([0, 1, 2, 3]), rng.choice(st), ())))
+    if rng.random() < 0.4: steps.append(("tU", 5, 0))
+    return fmt(steps)
+
 def cases(rng, tier):
     cs = [(l, "corpus") for l in CORPUS]
+    cs += [(symbol_merge(rng), "targeted_symbol_merge") for _ in range(300 if tier == "quick" else 5000)]
     cs += [(large_trim(rng), "targeted_large_trim") for _ in range(150 if tier == "quick" else 2000)]
     cs += [(l, "exhaustive") for l in exhaustive(3 if tier == "quick" else 4)]
     cs += [(l, "targeted") for l in targeted(rng, 1500 if tier == "quick" else 25000)]
